@@ -245,6 +245,39 @@ def index_replay(ctx, rng):
     ctx.notes['index_sequences_replayed'] = nrow
 
 
+def planner_replay(ctx):
+    """LisPlan.tla: the frame-set planner transcribed; TLC checks every plan in the bound against the abstract interpreter
+    (PlanOK) and exports every case with its plan; the real FrameSetPlan.genEvents must emit exactly that plan."""
+    import json
+    import os
+    import types
+    from ..tlc import raw
+    from TotalDepth.LIS.core import Type01Plan
+    cc = dict(MaxCh='3', MaxStart=ctx.pick('2', '3'), MaxStop=ctx.pick('4', '5'), MaxStep='3')
+    consts = dict(SizeMenu=raw('{1, 2}' if ctx.quick else '{1, 2, 4}'), IndrMenu=raw('{0, 4}'))
+    ctx.tlc_check('MC_LisPlan', 'LisPlan', consts=consts, cfg_consts=cc, defs='ASSUME AllPlansOK', coverage=False, timeout=3000)
+    ft = os.path.join(ctx.wdir('lisplan'), 'rows.json')
+    ctx.tlc_check('MC_LisPlanTable', 'LisPlanTable', consts=consts, cfg_consts=cc, env={'OUT_TABLE': ft}, workers=1, coverage=False, timeout=3000)
+    rows = json.load(open(ft))
+    for ri, row in enumerate(rows):
+        dfsr = types.SimpleNamespace(ebs=types.SimpleNamespace(recordingMode=1 if row['indr'] else 0, depthRepCode=68 if row['indr'] else 0),
+                                     dsbBlocks=[types.SimpleNamespace(size=z) for z in row['S']])
+        ctx.case(('plan', ri), row['step'] > 1 or len(row['chs']) < len(row['S']))
+        try:
+            plan = Type01Plan.FrameSetPlan(dfsr)
+            got = [dict(t=e[0], siz=e[1], fr=-1 if e[2] is None else e[2], c0=-1 if e[3] is None else e[3], c1=-1 if e[4] is None else e[4])
+                   for e in plan.genEvents(slice(row['start'], row['stop'], row['step']), list(row['chs']))]
+        except Exception as e:
+            ctx.fail('FrameSetPlan.genEvents raised %s: %s for %s' % (type(e).__name__, e, json.dumps({k: row[k] for k in row if k != 'plan'})), row, sig=dict(kind='planner-exception'))
+            continue
+        if got != row['plan']:
+            k = next((i for i in range(min(len(got), len(row['plan']))) if got[i] != row['plan'][i]), min(len(got), len(row['plan'])))
+            ctx.fail('FrameSetPlan.genEvents(slice(%d,%d,%d), %r) on channel sizes %r, indirect %d: event %d is %r, the specification plans %r' % (
+                row['start'], row['stop'], row['step'], row['chs'], row['S'], row['indr'], k, got[k] if k < len(got) else None,
+                row['plan'][k] if k < len(row['plan']) else None), dict(row=row, got=got), sig=dict(kind='planner'))
+    ctx.notes['planner_cases_replayed'] = len(rows)
+
+
 def run(ctx):
     repo.setup()
     from ..core import quiet_logging
@@ -252,6 +285,7 @@ def run(ctx):
     from TotalDepth.LIS.core import File, FileIndexer, LogPass
     rng = ctx.subrng('c06')
     index_replay(ctx, ctx.subrng('c06-index'))
+    planner_replay(ctx)
     ctx.tlc_check('MC_LisFrames', 'LisFrames', consts={'Cases': frozenset(design_cases())},
                   invariants=['CellsSound', 'XSound', 'CursorInside', 'OnlyVisited', 'CompleteIsRight'], timeout=900)
     rv = ctx.tlc_check('MC_LisFrames_reach', 'LisFrames', consts={'Cases': frozenset(design_cases()[:1])}, invariants=['NeverComplete'],
